@@ -1,0 +1,23 @@
+//go:build verif
+
+package verifhook
+
+import (
+	"github.com/emersion/go-webdav/internal"
+)
+
+// Re-exports used by the check of the raw XML value (internal/xml.go).
+
+type (
+	Include          = internal.Include
+	Remove           = internal.Remove
+	Set              = internal.Set
+	VerifReaderFrame = internal.VerifReaderFrame
+)
+
+var (
+	VerifRawFields    = internal.VerifRawFields
+	VerifNewRaw       = internal.VerifNewRaw
+	VerifReaderState  = internal.VerifReaderState
+	VerifValueXMLName = internal.VerifValueXMLName
+)
